@@ -1,9 +1,11 @@
 """C20 — whitespace, comments, discards and reader sugar are transparent."""
+CANON = True
+
 import ast
 import re
 
-from .. import compq, pyq, readerq
-from ..pysrc import dotted, fold, norm
+from .. import compq, pm, pyq, readerq
+from ..pysrc import dotted, fold, norm, stmt_of
 from ..readerq import HR, RD
 
 
@@ -76,7 +78,10 @@ def check(ctx, src):
     ctx.check(t == ["self.slurp_space()", "if self.peek_and_getc(closer): break", "model = self.try_parse_one_form()", "if model is not None: yield model"], "NONE-PROP", f"{HR}|parse_forms_until|loop",
               f"parse_forms_until loop is {t}", HR, pfu.lineno, witness="(a ; c\\n b) contains None / stops early", detail="skip space; closer?; parse; yield non-None")
     td = rq.handlers["#"][2]
-    ctx.check(pyq.contains(td, lambda n: isinstance(n, ast.Return) and norm(n.value) == "as_model(tree) if tree is not None else None") is not None, "NONE-PROP", f"{HR}|tag_dispatch|None", "a reader macro returning None must produce no form",
+    am = pyq.contains(td, lambda n: isinstance(n, ast.Call) and dotted(n.func) == "as_model" and len(n.args) == 1 and isinstance(n.args[0], ast.Name))
+    tv = am.args[0].id if am is not None else None
+    none_ret = [r for r in ast.walk(td) if isinstance(r, ast.Return) and (r.value is None or isinstance(r.value, ast.Constant) and r.value.value is None) and any(g == f"{tv} is None" for g in pyq.guard_texts(r, td))]
+    ctx.check(am is not None and any(g == f"{tv} is not None" for g in pyq.guard_texts(am, td)), "NONE-PROP", f"{HR}|tag_dispatch|None", "a reader macro returning None must produce no form",
               HR, td.lineno, detail="None stays None")
     # --- sugar
     sugar = {}
@@ -93,8 +98,7 @@ def check(ctx, src):
         for k, v in fold(dct).items():
             sugar["#" + k] = "unpack-" + v
     ann = rq.handlers["#^"][2]
-    t = [norm(s) for s in pyq.body_without_doc(ann)]
-    if t == ["typ = self.parse_one_form()", "target = self.parse_one_form()", "return mkexpr('annotate', target, typ)"]:
+    if pm.eq(pyq.body_without_doc(ann), "typ = self.parse_one_form()\ntarget = self.parse_one_form()\nreturn mkexpr('annotate', target, typ)") is not None:
         sugar["#^"] = "annotate"
     want = {"'": "quote", "`": "quasiquote", "~": "unquote", "~@": "unquote-splice", "#*": "unpack-iterable", "#**": "unpack-mapping", "#^": "annotate"}
     ctx.check(sugar == want, "SUGAR", f"{HR}|sugar table", f"the reader's sugar table is {sugar}", HR, 0, witness="'x no longer reads as (quote x)", detail=str(sugar))
@@ -120,7 +124,7 @@ def check(ctx, src):
     pr = rq.methods["parse"][1]
     ctx.check(norm(pr.body[-1]) == "yield from self.parse_forms_until('')", "CONCAT", f"{HR}|HyReader.parse|top level", "top-level reading must yield from parse_forms_until('')", HR, pr.lineno, detail="yield from parse_forms_until('')")
     pg = rq.methods["peek_and_getc"][1]
-    ctx.check([norm(s) for s in pyq.body_without_doc(pg)] == ["nc = self.peekc()", "if nc == target: self.getc() return True", "return False"], "CONCAT", f"{RD}|peek_and_getc", "peek_and_getc must consume only on equality", RD, pg.lineno, detail="consume iff equal")
+    ctx.check(pm.eq(pyq.body_without_doc(pg), "nc = self.peekc()\nif nc == target:\n    self.getc()\n    return True\nreturn False") is not None, "CONCAT", f"{RD}|peek_and_getc", "peek_and_getc must consume only on equality", RD, pg.lineno, detail="consume iff equal")
     ctx.floor("NONE-PROP", 7)
 
 
